@@ -177,7 +177,9 @@ class Runner:
     def run_crate(self, slot, units, plan: Plan, profile, jobs):
         root = os.path.join(self.work, f"{self.tier}_{profile}_{slot}")
         tdir = os.path.join(self.work, f"target_{profile}_{slot}")
-        cr = Crate(root, f"vc_{self.pid.lower()}_{slot}", list(units), self.dep, self.lock, release_macro=(profile == "release"),
+        # the crate name carries the tier: quick and thorough crates share a target directory (dependencies and the
+        # macro are built once), and Kani was seen to pick up the stale harness metadata of a same-named crate
+        cr = Crate(root, f"vc_{self.pid.lower()}_{self.tier[0]}{slot}", list(units), self.dep, self.lock, release_macro=(profile == "release"),
                    extra_rt=plan.extra_rt, features_nightly=plan.features_nightly)
         rejected, herrors, fatal = {}, {}, None
         need_accept = any(u.meta.get("valid") is False for u in units) or any(not u.harnesses for u in units)
